@@ -190,7 +190,12 @@ Definition sub_resume (h : helper P) (q : nat) (p : P) (i : input) (k : P -> hph
   end.
 Definition helper_resume' (h : helper P) (i : input) : outcome (helper P) * list obs :=
   match i with
-  | Close => (Raised EGeneratorExit, [])
+  | Close =>
+      match hph h with
+      | HPre _ => (Raised EGeneratorExit, [OPlanIn (sub_pid (hpre h)) Close])
+      | HPost _ => (Raised EGeneratorExit, [OPlanIn (sub_pid (hpost h)) Close])
+      | _ => (Raised EGeneratorExit, [])
+      end
   | Send v =>
       match hph h with
       | H0 => (Yielded (mk (CRewindable (Some false))) (helper_set h HRwFalse), [])
